@@ -9,7 +9,7 @@ import sys
 
 src, pid, name = sys.argv[1:4]
 extra = sys.argv[4:]
-WT = "/tmp/seedverify"
+WT = "/tmp/seedverify-%d" % os.getpid()
 
 
 def sh(cmd, **kw):
